@@ -237,6 +237,36 @@ func blsEdgeTranscript(r *rand.Rand) {
 			emits("edge_sk_sign", b, res(sg, err))
 		}
 	}
+	// aggregation where the running sum EQUALS the next summand (the addition is a doubling) or its
+	// negative: the same signature twice, s1, s2, s1+s2, s1, -s1 ...; the same (key, message) pair
+	// repeated in a many-messages verification (hash images under one key are summed)
+	{
+		m1, m2 := []byte("dup message 1"), []byte("dup message 2")
+		ska, _ := crypto.GeneratePrivateKey(crypto.BLSBLS12381, rb(r, 32))
+		skb, _ := crypto.GeneratePrivateKey(crypto.BLSBLS12381, rb(r, 32))
+		a1, _ := ska.Sign(m1, hs)
+		a2, _ := ska.Sign(m2, hs)
+		b1, _ := skb.Sign(m1, hs)
+		ab, _ := crypto.AggregateBLSSignatures([]crypto.Signature{a1, b1})
+		for i, l := range [][]crypto.Signature{{a1, a1}, {a1, a1, b1}, {a1, b1, ab}, {a1, a1, a1, a1}, {b1, a1, a1}, {a1, b1, a1, b1}} {
+			g, err := crypto.AggregateBLSSignatures(l)
+			emits(fmt.Sprintf("edge_agg_dup_%d", i), a1, res(g, err))
+		}
+		pka, pkb := ska.PublicKey(), skb.PublicKey()
+		g1, _ := crypto.AggregateBLSSignatures([]crypto.Signature{a1, a1, b1})
+		v1, e1 := crypto.VerifyBLSSignatureOneMessage([]crypto.PublicKey{pka, pka, pkb}, g1, m1, hs)
+		emits("edge_verify_dup_one", g1, fmt.Sprint(v1, e1))
+		g2, _ := crypto.AggregateBLSSignatures([]crypto.Signature{a1, a1, a2})
+		v2, e2 := crypto.VerifyBLSSignatureManyMessages([]crypto.PublicKey{pka, pka, pka}, g2, [][]byte{m1, m1, m2}, []hash.Hasher{hs, hs, hs})
+		emits("edge_verify_dup_many", g2, fmt.Sprint(v2, e2))
+		g3, _ := crypto.AggregateBLSSignatures([]crypto.Signature{a1, b1, a1, b1})
+		v3, e3 := crypto.VerifyBLSSignatureManyMessages([]crypto.PublicKey{pka, pkb, pka, pkb}, g3, [][]byte{m1, m1, m1, m1}, []hash.Hasher{hs, hs, hs, hs})
+		emits("edge_verify_dup_pairs", g3, fmt.Sprint(v3, e3))
+		dk, _ := crypto.AggregateBLSPublicKeys([]crypto.PublicKey{pka, pka, pkb, pka})
+		emit("edge_agg_pk_dup", a1, dk.Encode())
+		bv, be := crypto.BatchVerifyBLSSignaturesOneMessage([]crypto.PublicKey{pka, pka, pkb}, []crypto.Signature{a1, a1, b1}, m1, hs)
+		emits("edge_batch_dup", a1, fmt.Sprint(bv, be))
+	}
 	// fixed-output hashers: halves equal, >= p, zero (the two field elements of hash-to-curve)
 	for _, fill := range []byte{0x00, 0x01, 0xff, 0x1a} {
 		o := make([]byte, 128)
